@@ -294,6 +294,7 @@ fn tx_actor(ctx: &Ctx<PlMon>, tx: &mut PduTx<'_>, shared: &Arc<Mutex<Shared>>, c
                 if fail != 0 && !failed_once.insert(key) {
                     fail = 0;
                 }
+                ctx.mon(|m| m.tx_send_failing = fail != 0);
                 // only the victims' frames (tag byte 3 = task number + 1 > 1) are answered early
                 if early && fail == 0 && b.len() >= 22 && b[21] > 1 {
                     // the response is on the wire before TX even returns
@@ -305,7 +306,10 @@ fn tx_actor(ctx: &Ctx<PlMon>, tx: &mut PduTx<'_>, shared: &Arc<Mutex<Shared>>, c
                     _ => Ok(b.len().saturating_sub(1)),
                 }
             });
-            ctx.mon(|m| m.remove_holders_of(A_TX, HolderKind::TxClaim));
+            ctx.mon(|m| {
+                m.tx_send_failing = false;
+                m.remove_holders_of(A_TX, HolderKind::TxClaim)
+            });
             match res {
                 Ok(_) => {
                     {
